@@ -22,10 +22,24 @@ def gen_case(rng, nobs=(8, 40), ntargets=(6, 14), models=MODELS, metrics=('eucli
         coords = coords * 7.0
     coords = np.unique(coords, axis=0)
     rng.shuffle(coords, axis=0)
+    dup_rows = None
     if rng.random() < 0.25:
         # duplicated observation locations (with their own values): the library keeps the first one
         k = int(rng.integers(1, 4))
-        coords = np.vstack([coords, coords[rng.integers(0, len(coords), size=k)]])
+        dup_rows = coords[rng.integers(0, len(coords), size=k)]
+        coords = np.vstack([coords, dup_rows])
+        rng.shuffle(coords, axis=0)
+    if dim >= 2 and rng.random() < (0.3 if dim == 2 else 0.6):
+        # distinct locations that agree with another observation in all but one coordinate (profiles, boreholes):
+        # they are different points and all of them are kept
+        k = int(rng.integers(1, 4))
+        twins = coords[rng.integers(0, len(coords), size=k)].copy()
+        if dup_rows is not None and rng.random() < 0.7:
+            twins = np.vstack([dup_rows.copy(), dup_rows.copy()])    # ... of locations that were observed twice
+            k = len(twins)
+        ax = int(rng.integers(0, dim)) if rng.random() < 0.5 else dim - 1
+        twins[:, ax] += rng.choice([-7.0, 3.5, 7.0, 14.0], size=k)
+        coords = np.unique(np.vstack([coords, twins]), axis=0) if rng.random() < 0.5 else np.vstack([coords, twins])
         rng.shuffle(coords, axis=0)
     n = len(coords)
     values = gen_values(rng, coords, str(rng.choice(['field', 'int'])))
@@ -63,13 +77,19 @@ def gen_case(rng, nobs=(8, 40), ntargets=(6, 14), models=MODELS, metrics=('eucli
         else:
             tg.append(np.round(rng.uniform(lo, hi) / 7.0) * 7.0 + (3.5 if kind == 'lattice' else 0.0))
     targets = np.array(tg, dtype=float)
+    if rng.random() < 0.35 and len(targets) >= 3:
+        # repeated target locations in one batch, first occurrences in no particular order
+        rep = targets[rng.integers(0, len(targets), size=int(rng.integers(1, 4)))]
+        targets = np.vstack([targets, rep])
+        rng.shuffle(targets, axis=0)
     sparse = bool(allow_sparse and metric == 'euclidean' and model in BOUNDED and rng.random() < 0.4)
     solver = str(rng.choice(['inv', 'numpy', 'scipy']))
     # value-preserving dtypes of the caller's arrays: integer lattices as (unsigned) integer arrays, integer-valued
     # observations as integers, anything as float32 after rounding to float32 (the model keeps using the exact values)
     cdt = vdt = 'float64'
-    if kind == 'lattice' and rng.random() < 0.5:
-        cdt = str(rng.choice(['int64', 'int32', 'uint16', 'uint8' if coords.max() < 256 else 'uint16']))
+    if kind == 'lattice' and np.all(coords == np.round(coords)) and rng.random() < 0.5:
+        cdt = str(rng.choice(['int64', 'int32'] + (['uint16', 'uint8' if coords.max() < 256 else 'uint16']
+                                                   if coords.min() >= 0 else ['int16'])))
     elif rng.random() < 0.15:
         coords = coords.astype('float32').astype(float)
         targets = targets.astype('float32').astype(float)
